@@ -47,7 +47,7 @@ import traceback
 import numpy as np
 
 from runtime import oracles
-from runtime.common import Recorder, close, jsonable, use_repo
+from runtime.common import Recorder, close, jsonable, use_repo, rot_frame
 
 K_EARLY = "run_base_capa:early-point-anomaly"
 K_START = "optimise_savings:opt-start"
@@ -295,7 +295,7 @@ def execute(case, ignore=False):
             if api == "run_mvcapa":
                 r = mv_mod.run_mvcapa(X, cs, ps, cpen, pen["cscale"], ppen, pen["pscale"], m, M)
             else:
-                df = pd.DataFrame(X)
+                df = rot_frame(X, 3)
                 det.fit(df)
                 y = det.predict(df)
                 scores = det.transform_scores(df)
@@ -307,7 +307,7 @@ def execute(case, ignore=False):
                        point_penalty_scale=pen["pscale"], min_segment_length=m, max_segment_length=M,
                        ignore_point_anomalies=ignore)
             out["log"], out["plog"] = attach_log(det._collective_saving), attach_log(det._point_saving)
-            df = pd.DataFrame(X)
+            df = rot_frame(X, 3)
             det.fit(df)
             out["pens"] = (float(det.collective_penalty_), [0.0], float(det.point_penalty_), [0.0])
             y = det.predict(df)
